@@ -23,6 +23,7 @@ KindInfo(k) ==
     [] k = "2ok"  -> [type |-> 2, id |-> "B", wellformed |-> TRUE]
     [] k = "2unk" -> [type |-> 2, id |-> "Z", wellformed |-> TRUE]
     [] k = "2bad" -> [type |-> 2, id |-> "B", wellformed |-> FALSE]    \* message out of range for the key
+    [] k = "1okB" -> [type |-> 1, id |-> "B", wellformed |-> TRUE]     \* a type-1 key whose id ends like the type-2 key's
 
 \* An issuer: type, truncated key id, key, and whether it is a stub that
 \* always fails (standing for any evaluation error).
@@ -33,6 +34,7 @@ ConfigOf(c) ==
     [] c = "t1only"     -> <<Iss(1, "A", "k1", FALSE)>>
     [] c = "t2only"     -> <<Iss(2, "B", "k2", FALSE)>>
     [] c = "firstfails" -> <<Iss(1, "A", "kx", TRUE), Iss(1, "A", "k1", FALSE), Iss(2, "B", "kx", TRUE), Iss(2, "B", "k2", FALSE)>>
+    [] c = "crosscollide" -> <<Iss(2, "B", "k2", FALSE), Iss(1, "B", "k1b", FALSE)>>   \* truncated ids collide across types
     [] c = "none"       -> <<>>
 
 VARIABLES cfg, reqs, phase, slots, wire, decoded, finalized
@@ -72,7 +74,7 @@ DecodeList ==
 
 \* finalizing slot j with request state j: a present response finalizes iff it
 \* answers request j (under the key that request was created for)
-ExpectedKey(k) == IF KindInfo(k).type = 1 THEN "k1" ELSE "k2"
+ExpectedKey(k) == IF k = "1okB" THEN "k1b" ELSE IF KindInfo(k).type = 1 THEN "k1" ELSE "k2"
 FinalizeSlot(j) ==
   IF decoded[j] = Absent THEN "absent"
   ELSE IF decoded[j][4] = j /\ decoded[j][3] = ExpectedKey(reqs[j]) THEN "token" ELSE "error"
